@@ -571,7 +571,7 @@ def rule_R(run, prog):
     run.ob("R-16.2", "context.py::PreProcessors::skip_define-readers", ok,
            "preproc.skip_define is read outside CheckPreprocessorDefine.run: " + ", ".join(f.key for f, _ in readers if f is not cd),
            next((n for f, n in readers if f is not cd), None))
-    if cd is not None and readers:
+    if cd is not None and any(f is cd for f, _ in readers):
         g = cfg_of(cd)
         rd = [n for f, n in readers if f is cd][0]
         tests = [nd for nd in g.nodes if nd.kind == "test" and any(x is rd for x in ast.walk(nd.ast))]
